@@ -2,6 +2,7 @@ package ast
 
 import (
 	"fmt"
+	"strconv"
 	"strings"
 
 	"github.com/smarthome-go/homescript/v3/homescript/errors"
@@ -101,7 +102,8 @@ func (self AnalyzedFloatLiteralExpression) String() string {
 		return fmt.Sprintf("%df", int64(self.Value))
 	}
 
-	return fmt.Sprint(self.Value)
+	// The grammar has no exponent notation: `1e-05` (what `fmt.Sprint` prints for 0.00001) cannot be read back.
+	return strconv.FormatFloat(self.Value, 'f', -1, 64)
 }
 func (self AnalyzedFloatLiteralExpression) Type() Type     { return NewFloatType(self.Range) }
 func (self AnalyzedFloatLiteralExpression) Constant() bool { return true }
